@@ -41,7 +41,7 @@ class Real:
         if rc:
             raise vlib.BuildError("module build %s:\n%s" % (name, out[-3000:]))
 
-    def run(self, args, prog="pdsh", env=None, stdin=None, timeout=20, cwd=None, extra_fds=0, nofile=None):
+    def run(self, args, prog="pdsh", env=None, stdin=None, timeout=20, cwd=None, extra_fds=0, nofile=None, closed_stdin=False):
         """extra_fds: the process starts with that many additional open (inheritable) descriptors, so that every descriptor it
         opens itself has a high number"""
         e = {"PATH": "/usr/bin:/bin", "HOME": "/root", "ASAN_OPTIONS": "detect_leaks=0", "LANG": "C"}
@@ -53,10 +53,16 @@ class Real:
                 fd = os.open("/dev/null", os.O_RDONLY)
                 os.set_inheritable(fd, True)
                 held.append(fd)
+        def pre():
+            if nofile:
+                import resource
+                resource.setrlimit(resource.RLIMIT_NOFILE, (nofile, nofile))
+            if closed_stdin:
+                os.close(0)          # started like a daemon: descriptor 0 is free, the first one pdsh opens gets it
         try:
             p = subprocess.run([os.path.join(self.dir, "bin", prog)] + list(args), env=e, input=stdin, stdout=subprocess.PIPE,
                                stderr=subprocess.PIPE, timeout=timeout, cwd=cwd, close_fds=not extra_fds,
-                               preexec_fn=(lambda: __import__("resource").setrlimit(__import__("resource").RLIMIT_NOFILE, (nofile, nofile))) if nofile else None)
+                               preexec_fn=pre if (nofile or closed_stdin) else None)
             return p.returncode, p.stdout, p.stderr
         except subprocess.TimeoutExpired as ex:
             return -999, ex.stdout or b"", ex.stderr or b""
